@@ -118,6 +118,25 @@ def check_unparse(chk, prog):
                 rets.append((x, ("emit", f_) in state))
         flow.forward(cfg, frozenset(seed), tr, refine=nullness.refine, visit=vis)
         bad = [x for x, ok in rets if not ok]
+        if bad:
+            # presence recorded in an integer local that the flag / mask devices could not resolve (calls or stores between its
+            # definition and its use): the paths cannot be told apart, the obligation is undecided - not a violation
+            held = set()
+            for y in walk(unparse.body):
+                rhs_, d_ = None, None
+                if y.get("k") == "assign" and (X.strip(y["ch"][0]) or {}).get("rk") == "local" and not (X.strip(y["ch"][0]) or {}).get("tp"):
+                    d_, rhs_ = X.strip(y["ch"][0])["d"], y["ch"][1]
+                    if any(z.get("k") == "member" and z.get("n") == f_ for z in walk(rhs_)):
+                        held.add(d_)
+                elif y.get("k") == "decl":
+                    for dc in y.get("decls", ()):
+                        if dc.get("init") is not None and not dc.get("tp") and any(z.get("k") == "member" and z.get("n") == f_ for z in walk(dc["init"])):
+                            held.add(dc["d"])
+            tested = any(z.get("k") == "ref" and z.get("d") in held and z.get("flagdef") is None and z.get("maskdef") is None
+                         for y in walk(unparse.body) if y.get("k") in ("if", "switch", "cond") for z in walk(y.get("cond") or y["ch"][0]))
+            if tested:
+                chk.note("W2 undecided for `%s`: its presence is held in a local that is tested after calls / stores the flag device does not see through" % f_)
+                continue
         chk.ob("W2", unparse.name, "emitted-when-present:" + f_, bool(rets) and not bad, loc=unparse.loc(bad[0]) if bad else unparse.loc(unparse.body),
                detail="spif_url_unparse has a path on which `%s` is present%s but is not emitted - its emission hangs on another component "
                       "being there: a URL with %s and without that component loses it on recomposition" % (
